@@ -40,6 +40,18 @@ def run(replay=None):
                 r["name"], r["sent"], r["seen"], not r["got_ok"], r["panic"]), r)
     if rcg != 0:
         ck.impl_violation("generic-crash", "mocking a generic instantiation crashes the process (exit %d)" % rcg, {"tail": outg[-400:]})
+    # a kept mocker re-applied after Reset / Cancel (own process: the failure mode is unbounded recursion)
+    ap = os.path.join(ck.wd, "reapply.jsonl")
+    rca, outa = vlib.run_hx(hx, ["c01", "-extra", "reapply", "-out", ap], timeout=300)
+    ars = vlib.read_jsonl(ap) if os.path.exists(ap) else []
+    if rca != 0:
+        last = [r for r in ars if r.get("kind") == "reapply-about"]
+        ck.impl_violation("reapplied-mocker-not-installed:crash", "a mocker re-applied after Reset/Cancel: the process dies (exit %d) at %s" % (rca, last[-1] if last else "?"),
+                          {"tail": outa[-400:], "last": last[-1] if last else None})
+    for r in ars:
+        if r.get("kind") == "reapply" and (r["panic"] or r["got"] != r["want"]):
+            ck.impl_violation("reapplied-mocker-not-installed", "%s: Apply; %s; %s through the kept mocker; call returns %s (want %s) %s" % (
+                r["name"], "Reset" if r["variant"] % 2 == 0 else "Cancel", "Return(77)" if r["variant"] < 2 else "Apply", r["got"], r["want"], r["panic"]), r)
     # retention: builder and callback dropped by the program, collections with heap churn, then a call (own process: a crash is an observation)
     rp = os.path.join(ck.wd, "retain.jsonl")
     rc, out = vlib.run_hx(hx, ["c01", "-extra", "retain", "-out", rp], timeout=600)
